@@ -283,6 +283,9 @@ def handleObj (st : DState) (parts : List String) : Option (DState × String) :=
         some (st, "M=" ++ fl ++ " V=" ++ (match v with | some x => showVal x | none => "-"))
       | none => some (st, "bad-op")
     | _, _, _ => some (st, "bad-op")
+  | ["race", _, _, _, _] =>
+    -- non-interference (C18): every worker's results are its sequential results; the model has no shared mutable state
+    some (st, "M=ok")
   | ["untrusted", f, aid, tid, hx] =>
     match parseNat aid, parseNat tid, parseHex hx with
     | some ai, some ti, some bs =>
